@@ -81,6 +81,8 @@ type c28Obs struct {
 	ClientGaveUpBeforeServerReply  int64 // asks designed so that the server replies after the client's deadline
 	LateReplies                    int64 // responder delay >= ask timeout
 	Yields, Delays                 int64
+	TimeoutUsedMs                  int64
+	MaxOverheadUs, AvgOverheadUs   int64 // successful asks: round trip minus responder delay
 	HotSites                       []string
 	Nontrivial                     bool
 }
@@ -96,8 +98,8 @@ func c28Gen(rng *rand.Rand) c28Script {
 		Noise:      rng.Intn(2) == 0,
 		Faults:     map[int64]string{},
 	}
-	if s.Responders < s.Askers/8 {
-		s.Responders = s.Askers / 8 // keep queueing delay at the responders below the timeout most of the time
+	if s.Responders < s.Askers/3 {
+		s.Responders = s.Askers / 3 // keep queueing delay at the responders below the timeout most of the time
 	}
 	total := s.Askers * s.PerAsker
 	for n := rng.Intn(7); n > 0; n-- {
@@ -136,6 +138,39 @@ func c28RunCase(e *c27Env, s c28Script, seed int64) (obs c28Obs) {
 			MinDelay: 50 * time.Microsecond, MaxDelay: 3 * time.Millisecond, Budget: 400})
 	}
 	timeout := time.Duration(s.TimeoutMs) * time.Millisecond
+	// Workload shaping only (never a verdict): on a slow or loaded machine a remote round
+	// trip alone can exceed the nominal timeout and every ask would time out. Measure the
+	// round trip of undelayed asks at the workload's concurrency and stretch the timeout to 3x its upper quartile.
+	{
+		var rtts []time.Duration
+		var rmu sync.Mutex
+		var pw sync.WaitGroup
+		for a := 0; a < s.Askers; a++ { // same concurrency as the workload
+			pw.Add(1)
+			go func(a int) {
+				defer pw.Done()
+				for i := 0; i < 3; i++ {
+					t0 := time.Now()
+					if _, err := from.Ask(ctx, remotes[(a+i)%len(remotes)], &testpb.TestLog{Text: tag + "|p|" + strconv.Itoa(a) + "|" + strconv.Itoa(i) + "|0"}, 20*time.Second); err == nil {
+						rmu.Lock()
+						rtts = append(rtts, time.Since(t0))
+						rmu.Unlock()
+					}
+				}
+			}(a)
+		}
+		pw.Wait()
+		if len(rtts) > 0 {
+			sort.Slice(rtts, func(i, j int) bool { return rtts[i] < rtts[j] })
+			if t := 3 * rtts[len(rtts)*3/4]; t > timeout {
+				timeout = t
+			}
+		}
+		if timeout > 600*time.Millisecond {
+			timeout = 600 * time.Millisecond
+		}
+		obs.TimeoutUsedMs = timeout.Milliseconds()
+	}
 	var witMu sync.Mutex
 	wit := func(format string, args ...any) {
 		witMu.Lock()
@@ -144,6 +179,7 @@ func c28RunCase(e *c27Env, s c28Script, seed int64) (obs c28Obs) {
 		}
 		witMu.Unlock()
 	}
+	var maxOver, sumOver atomic.Int64
 	var ok, timeouts, other, batchOK, batchErr, wrong, wrongBatch, border, blen, gaveUp, late atomic.Int64
 	var wg sync.WaitGroup
 	for ask := 0; ask < s.Askers; ask++ {
@@ -220,17 +256,17 @@ func c28RunCase(e *c27Env, s c28Script, seed int64) (obs c28Obs) {
 				}
 				// single ask: delay around the timeout
 				var delay time.Duration
-				switch x := rng.Intn(40); {
-				case x < 30:
+				switch x := rng.Intn(80); {
+				case x < 70:
 					delay = time.Duration(rng.Intn(300)) * time.Microsecond
-				case x < 32:
+				case x < 72:
 					delay = timeout*3/4 + time.Duration(rng.Intn(2000))*time.Microsecond
-				case x < 34:
+				case x < 74:
 					delay = timeout - time.Duration(rng.Intn(1500))*time.Microsecond
-				case x < 36:
+				case x < 76:
 					delay = timeout + time.Duration(rng.Intn(1500))*time.Microsecond
-				case x < 37:
-					delay = timeout * 2
+				case x < 77:
+					delay = timeout + 5*time.Millisecond
 				default:
 					delay = time.Duration(rng.Int63n(int64(timeout)))
 				}
@@ -245,8 +281,15 @@ func c28RunCase(e *c27Env, s c28Script, seed int64) (obs c28Obs) {
 				if delay >= timeout {
 					late.Add(1)
 				}
+				t0 := time.Now()
 				resp, err := from.Ask(actx, target, &testpb.TestLog{Text: text}, timeout)
 				cancel()
+				if err == nil {
+					if over := (time.Since(t0) - delay).Microseconds(); over > maxOver.Load() {
+						maxOver.Store(over)
+					}
+					sumOver.Add((time.Since(t0) - delay).Microseconds())
+				}
 				if err != nil {
 					es := err.Error()
 					if strings.Contains(es, "timeout") || strings.Contains(es, "deadline") || strings.Contains(es, "timed out") {
@@ -281,6 +324,10 @@ func c28RunCase(e *c27Env, s c28Script, seed int64) (obs c28Obs) {
 	obs.WrongReply, obs.BatchOrder, obs.WrongBatchLen = wrong.Load(), border.Load(), blen.Load()
 	obs.WrongBatchReply = wrongBatch.Load()
 	obs.ClientGaveUpBeforeServerReply, obs.LateReplies = gaveUp.Load(), late.Load()
+	obs.MaxOverheadUs = maxOver.Load()
+	if obs.OK > 0 {
+		obs.AvgOverheadUs = sumOver.Load() / obs.OK
+	}
 	obs.Fired = b.Proxy.Fired.Load() - fired0
 	obs.FiredLog = b.Proxy.FiredLog()
 	obs.Nontrivial = obs.OK > 0 && (obs.Timeouts+obs.OtherErrors) > 0
@@ -291,10 +338,10 @@ func c28RunCase(e *c27Env, s c28Script, seed int64) (obs c28Obs) {
 func TestVerif_C28(t *testing.T) {
 	r := verifrt.Start(t, "C28")
 	defer r.Finish()
-	r.Rule("case = 8-64 concurrent askers x 8-17 operations (single asks with responder delays around the ask timeout, a share with a context deadline of half the timeout; batch asks of 1-20 messages through RemoteBatchAsk and PID.BatchAsk) against 1-8 echo actors on a second actor system through the fault proxy (0-6 connection resets before/inside a request or response), optionally with schedule noise between the late-reply guard and the reply send of ReceiveContext.Response; oracle = reply token == request token, batch replies in request order; non-trivial = at least one ask succeeded and at least one timed out or failed in the same case; distinct by script and seed")
+	r.Rule("case = 8-64 concurrent askers x 8-17 operations (single asks with responder delays around the ask timeout, a share with a context deadline of half the timeout; batch asks of 1-20 messages through RemoteBatchAsk and PID.BatchAsk) against 1-21 echo actors on a second actor system through the fault proxy (0-6 connection resets before/inside a request or response), optionally with schedule noise between the late-reply guard and the reply send of ReceiveContext.Response; oracle = reply token == request token, batch replies in request order; non-trivial = at least one ask succeeded and at least one timed out or failed in the same case; distinct by script and seed")
 	r.Assume("a timeout or transport error is an allowed outcome; only a reply carrying a different request's token, or batch replies out of request order, refute")
 	rng := r.Rand(28)
-	n := r.N(30, 800)
+	n := r.N(24, 800)
 	env := &c27Env{t: t}
 	defer env.Close()
 	for i := 0; i < n; i++ {
@@ -312,6 +359,8 @@ func TestVerif_C28(t *testing.T) {
 		r.Count("asks_with_server_reply_after_client_deadline", obs.ClientGaveUpBeforeServerReply)
 		r.Count("asks_with_responder_delay_beyond_timeout", obs.LateReplies)
 		r.Count("noise_delays_injected", obs.Delays)
+		r.Max("max_ok_ask_overhead_us", obs.MaxOverheadUs)
+		r.Max("max_ask_timeout_used_ms", obs.TimeoutUsedMs)
 		detail := map[string]any{"script": key, "seed": seed, "obs": obs}
 		if obs.WrongReply > 0 {
 			r.Violation("wrong-reply:ask", detail)
